@@ -18,7 +18,7 @@ from ..tables import parse_qha_table
 
 ID = "C15"
 SHARDS = {"quick": 16, "thorough": 16}
-RULE = ("data sets as C05 and an output section: a drawn subset of the documented keywords in drawn alias spellings, string or "
+RULE = ("data sets as C05 (a quarter of them with one coupling constant of 1e-5..1e-4 GPa) and an output section: a drawn subset of the documented keywords in drawn alias spellings, string or "
         "dict form (fname / unit overrides on scalar keywords), both bases (v only pressure base, p only volume base); "
         "non-trivial = section with >= 1 alias pair compared, >= 1 ij-keyword and NT >= 2; distinct by the drawn spec")
 ASSUMPTIONS = [
@@ -49,6 +49,11 @@ UNIT_OVERRIDES = {"GPa": {"Pa": 1e9, "kbar": 10.0, "MPa": 1e3}, "km/s": {"m/s": 
 def cases(draw):
     s = draw(dataset_specs(max_nq=2, max_na=2, max_nt=4, interpolators=["lsq_poly"], keys_mode="ortho9+"))
     s["order"] = min(s["order"], 3)
+    if draw(st.integers(0, 3)) == 0:
+        # a coupling constant of 1e-5..1e-4 GPa in the table (its phonon part vanishes): tiny but non-zero file entries
+        s["tiny_coupling"] = True
+        s["system"] = draw(st.sampled_from(["monoclinic", "triclinic"]))
+        s["apply_system"] = False
     items = []
     n = draw(st.integers(1, 6))
     for _ in range(n):
@@ -57,6 +62,9 @@ def cases(draw):
         base = draw(st.sampled_from(["tp", "tv"]))
         form = draw(st.sampled_from(["str", "str", "dict", "fname", "unit"]))
         items.append({"rule": rule, "alias": alias, "base": base, "form": form})
+    if s.get("tiny_coupling"):
+        items.append({"rule": draw(st.sampled_from([0, 1])), "alias": 0,
+                      "base": draw(st.sampled_from(["tp", "tv"])), "form": "str"})
     s["items"] = items
     return s
 
@@ -232,6 +240,7 @@ def sub_outputs(ctx):
             return
         info = oracle(ctx, s, ds, qs, s)
         cl = ["entries=%d" % info["n"]] + ["form-" + it["form"] for it in s["items"]] + ["base-" + it["base"] for it in s["items"]]
+        cl.append("tiny-coupling" if getattr(ds, "tiny_key", None) else "no-tiny-coupling")
         ctx.case(s, info["alias_checked"] >= 1 and info["ij"] and s["nt"] >= 2, classes=sorted(set(cl)))
 
     ctx.run_given(body, cases(), max_examples=ctx.n(96, 3000), shrink=not ctx.quick)
